@@ -1,8 +1,236 @@
-//! C08 — see /verif/DESIGN.md §3.
-use vf_core::{Args, Ctx};
+//! C08 — character maps built from a mapping answer exactly that mapping.
+//! See /verif/DESIGN.md §3 "C08".
+//!
+//! Model: the input `BTreeMap<u32 /*char*/, u16 /*gid*/>` itself.
+//! Observed: `write_fonts::tables::cmap::Cmap::from_mappings` -> `dump_table`
+//! -> read-fonts `Cmap::map_codepoint`, `Cmap4/12::map_codepoint`, `Cmap4/12::iter`,
+//! skrifa `Charmap::map`, `Charmap::mappings`, `Cmap14/Charmap::map_variant`.
+mod gen;
+mod oracle;
+mod variants;
 
-pub const REPLAY: Option<fn(&mut Ctx, &Args, &serde_json::Value, Option<&[u8]>)> = None;
+use serde_json::{json, Value};
+use std::collections::BTreeMap;
+use vf_core::{Args, Ctx, Digest, PanicInfo, PanicPolicy, Rng};
+
+pub type Map = BTreeMap<u32, u16>;
+
+pub const REPLAY: Option<fn(&mut Ctx, &Args, &Value, Option<&[u8]>)> = Some(replay);
+
+/// Which maxp the test font carries (bounds `Charmap::mappings` for format 12).
+#[derive(Clone, Copy, Debug, PartialEq, Eq)]
+pub enum MaxpOpt {
+    /// no maxp table: skrifa assumes 65535 glyphs
+    Absent,
+    /// numGlyphs = max gid + 1 (the tightest glyph count satisfying the domain)
+    Exact,
+    /// numGlyphs = 0xFFFF
+    Max,
+}
+
+impl MaxpOpt {
+    pub fn from_ix(i: u64) -> Self {
+        match i % 3 {
+            0 => MaxpOpt::Absent,
+            1 => MaxpOpt::Exact,
+            _ => MaxpOpt::Max,
+        }
+    }
+    pub fn ix(self) -> u8 {
+        match self {
+            MaxpOpt::Absent => 0,
+            MaxpOpt::Exact => 1,
+            MaxpOpt::Max => 2,
+        }
+    }
+}
+
+/// Main = inside the region where a format-4 subtable provably fits in 64 KiB
+/// (upper bound computed by `gen::f4_upper_bound`); Probe = beyond it.
+#[derive(Clone, Copy, Debug, PartialEq, Eq)]
+pub enum Region {
+    Main,
+    Probe,
+}
+
+/// Normalise a panic location: Some(signature) if it is in the library under
+/// test, None if it is in harness code / std internals.
+pub fn lib_sig(p: &PanicInfo) -> Option<String> {
+    let repo = vf_core::repo_dir();
+    let repo = repo.trim_end_matches('/');
+    let f: &str = p
+        .file
+        .strip_prefix(&format!("{}/", repo))
+        .unwrap_or(&p.file);
+    if !p.in_repo()
+        || f.starts_with("checks/")
+        || f.starts_with("core/")
+        || f.contains("/harness/")
+        || f.contains("/.vf/")
+        || f.starts_with("/rustc/")
+        || f.starts_with("library/")
+    {
+        return None;
+    }
+    Some(format!("panic:{}:{}:{}", f, p.line, p.class.as_str()))
+}
+
+pub fn map_digest(map: &Map, maxp: MaxpOpt) -> u64 {
+    let mut d = Digest::new();
+    d.u32(maxp.ix() as u32);
+    for (c, g) in map {
+        d.u32(*c);
+        d.u32(*g as u32);
+    }
+    d.finish()
+}
+
+pub fn map_bytes(map: &Map, maxp: MaxpOpt, region: Region) -> Vec<u8> {
+    let mut v = Vec::with_capacity(2 + map.len() * 6);
+    v.push(maxp.ix());
+    v.push((region == Region::Probe) as u8);
+    for (c, g) in map {
+        v.extend_from_slice(&c.to_le_bytes());
+        v.extend_from_slice(&g.to_le_bytes());
+    }
+    v
+}
+
+pub fn map_json(map: &Map) -> Value {
+    let v: Vec<Value> = map
+        .iter()
+        .take(64)
+        .map(|(c, g)| json!([format!("U+{:04X}", c), g]))
+        .collect();
+    json!({"entries": map.len(), "first_pairs": v})
+}
+
+fn replay(ctx: &mut Ctx, _args: &Args, _rec: &Value, bytes: Option<&[u8]>) {
+    setup(ctx);
+    let Some(b) = bytes else {
+        ctx.inconclusive("replay record has no input file");
+        return;
+    };
+    if b.len() < 2 {
+        ctx.inconclusive("replay input too short");
+        return;
+    }
+    let maxp = MaxpOpt::from_ix(b[0] as u64);
+    let region = if b[1] == 1 { Region::Probe } else { Region::Main };
+    let mut map = Map::new();
+    for c in b[2..].chunks_exact(6) {
+        let cp = u32::from_le_bytes([c[0], c[1], c[2], c[3]]);
+        let g = u16::from_le_bytes([c[4], c[5]]);
+        map.insert(cp, g);
+    }
+    oracle::check_case(ctx, "replay", &map, maxp, region);
+}
+
+fn setup(ctx: &mut Ctx) {
+    ctx.policy = PanicPolicy::Any;
+    ctx.level = "exploration+exhaustive-small-space".into();
+    ctx.rule = "a case is counted when Cmap::from_mappings + dump_table succeeded on a non-empty \
+        conflict-free mapping (gid in 1..=0xFFFE, no U+FFFF) and the compiled bytes were swept: every BMP code \
+        point + supplementary boundary set through Cmap::map_codepoint, every distinct subtable's map_codepoint, \
+        Charmap::map, plus iter()/mappings() equality; digest = (mapping pairs, maxp option). Variant cases: digest \
+        of the (selector, char) -> default/non-default model."
+        .into();
+    ctx.assumptions = vec![
+        "domain per property: conflict-free, glyph ids 1..=0xFFFE and below the font's glyph count, U+FFFF never mapped, chars are Unicode scalar values (no surrogates)".into(),
+        "table-level lookups may answer an unmapped char with None or glyph 0 (format-4 sentinel U+FFFF -> 0); Charmap must answer None".into(),
+        "main claim restricted to mappings whose format-4 subtable fits 64 KiB (harness upper bound on the builder's segmentation); larger ones are probed separately (defect #10)".into(),
+        "format-14 inputs are well-formed per spec: selectors ascending, default ranges ascending and disjoint, non-default mappings ascending, a (char, selector) pair never both default and non-default".into(),
+    ];
+}
 
 pub fn run(ctx: &mut Ctx, _args: &Args) {
-    ctx.rule = "stub".into();
+    setup(ctx);
+    let mut item = 0usize;
+
+    // ---- 1. exhaustive small space
+    let alphabets: &[(&str, [u32; 8])] = &[
+        ("A", [0x0, 0x1, 0x7FFF, 0x8000, 0xFFFD, 0xFFFE, 0x10000, 0x10FFFF]),
+        ("B", [0x20, 0x21, 0x22, 0xD7FF, 0xE000, 0xFFFE, 0x10000, 0x10001]),
+        ("C", [0x7FFE, 0x7FFF, 0x8000, 0x8001, 0xFFFC, 0xFFFD, 0x10FFFE, 0x10FFFF]),
+    ];
+    let n_alpha = ctx.tier.pick(1, 3);
+    let gids: [u16; 5] = [1, 2, 0x7FFF, 0x8000, 0xFFFE];
+    let mut exhaustive_total = 0u64;
+    for (aname, alpha) in alphabets.iter().take(n_alpha) {
+        for mask in 1u32..256 {
+            let k = mask.count_ones() as usize;
+            if k > 4 {
+                continue;
+            }
+            let chars: Vec<u32> = (0..8).filter(|b| mask & (1 << b) != 0).map(|b| alpha[b]).collect();
+            let n_assign = 5usize.pow(k as u32);
+            for a in 0..n_assign {
+                exhaustive_total += 1;
+                item += 1;
+                if !ctx.mine(item) {
+                    continue;
+                }
+                let mut map = Map::new();
+                let mut x = a;
+                for c in &chars {
+                    map.insert(*c, gids[x % 5]);
+                    x /= 5;
+                }
+                let maxp = MaxpOpt::from_ix(item as u64);
+                ctx.count(&format!("cases:exhaustive-{}", aname), 1);
+                oracle::check_case(ctx, "exhaustive", &map, maxp, Region::Main);
+            }
+        }
+    }
+    ctx.exhaustive = Some(true);
+    ctx.extra.insert(
+        "exhaustive_space".into(),
+        json!({"alphabets": alphabets.iter().take(n_alpha).map(|(n, a)| json!({"name": n, "chars": a.iter().map(|c| format!("U+{:04X}", c)).collect::<Vec<_>>()})).collect::<Vec<_>>(),
+               "gids": gids, "max_chars": 4, "cases_total_all_shards": exhaustive_total}),
+    );
+
+    // ---- 2. directed + random mappings (main region)
+    let n_random = ctx.tier.pick(2400usize, 90_000usize);
+    for i in 0..n_random {
+        item += 1;
+        if !ctx.mine(item) {
+            continue;
+        }
+        let mut rng = Rng::derive(ctx.seed, "c08-random", i as u64);
+        let (kind, map) = gen::gen_case(&mut rng, i);
+        let maxp = MaxpOpt::from_ix(rng.u64());
+        ctx.count(&format!("cases:{}", kind), 1);
+        oracle::check_case(ctx, kind, &map, maxp, Region::Main);
+    }
+
+    // ---- 3. fixed boundary cases (format-4 size boundary, delta boundaries)
+    for (i, (kind, map)) in gen::fixed_cases().into_iter().enumerate() {
+        item += 1;
+        if !ctx.mine(item) {
+            continue;
+        }
+        ctx.count(&format!("cases:{}", kind), 1);
+        oracle::check_case(ctx, kind, &map, MaxpOpt::from_ix(i as u64), Region::Main);
+    }
+
+    // ---- 4. variation sequences (format 14)
+    let n_var = ctx.tier.pick(1200usize, 40_000usize);
+    for i in 0..n_var {
+        item += 1;
+        if !ctx.mine(item) {
+            continue;
+        }
+        let mut rng = Rng::derive(ctx.seed, "c08-variants", i as u64);
+        variants::check_variant_case(ctx, &mut rng, i);
+    }
+
+    // ---- 5. probes beyond the representable format-4 region (defect #10)
+    for (i, (kind, map)) in gen::probe_cases(ctx.seed, ctx.tier.is_thorough()).into_iter().enumerate() {
+        item += 1;
+        if !ctx.mine(item) {
+            continue;
+        }
+        ctx.count(&format!("cases:{}", kind), 1);
+        oracle::check_case(ctx, kind, &map, MaxpOpt::from_ix(i as u64), Region::Probe);
+    }
 }
